@@ -66,7 +66,7 @@ C12Set ==
         \* unoffered cipher suite the server implements at that version
         {[Adv(x) EXCEPT !.force_suite = s] : s \in (IF x.ver = 772 THEN Impl13 ELSE {t \in Impl12 : SuiteFitsVersion(t, x.ver) /\ (SuiteRec(t).ECSign <=> x.cert = "ecdsa")}) \ o.suites}
         \* unoffered group in the TLS 1.3 key_share / as TLS 1.2 curve; HRR naming an unoffered or already shared group
-        \cup {[Adv(x) EXCEPT !.force_group = g] : g \in (IF x.ver = 772 THEN ImplGroups ELSE (IF SuiteRec(x.suite).ECDHE THEN Classical ELSE {})) \ o.groups}
+        \cup {[Adv(x) EXCEPT !.force_group = g] : g \in (IF x.ver = 772 THEN ImplGroups ELSE (IF SuiteRec(x.suite).ECDHE THEN Classical ELSE {})) \ (o.groups \cup (IF x.ver = 772 THEN o.shares ELSE {}))}
         \* (the server really wants a group g0 the hello lists without a share, the HRR on the wire names g instead;
         \*  every share the hello carries is tried as g, so is every classical group it does not list)
         \cup (IF x.ver = 772 THEN {[Adv(x) EXCEPT !.group = g0, !.hrr_group = g] :
@@ -178,11 +178,13 @@ Next == ServerFirst \/ ClientCH2 \/ ServerSecond \/ ClientFinish
 
 \* ------------------------------------------------------------ model-level properties
 \* C12/C13 stated without the Check* operators: a completed handshake only has offered values
+\* (a key share offers its group even when supported_groups omits it: randomized specs produce such hellos, which is
+\*  reported under C09; here the share counts as the offer, as it does for the client and for RFC 8446 4.2.8)
 Offered == phase = "done" =>
    /\ SHVersion(sh) \in o.versions
    /\ sh.suite \in Offers[scn.id].suites
    /\ sh.comp = 0
-   /\ (SHVersion(sh) = 772 => sh.sid = o.sid /\ SHGroup(sh) \in Offers[scn.id].groups /\ SHPsk(sh) < 0)
+   /\ (SHVersion(sh) = 772 => sh.sid = o.sid /\ SHGroup(sh) \in Offers[scn.id].groups \cup Offers[scn.id].shares /\ SHPsk(sh) < 0)
    /\ (SrvALPN(scn, o) # <<>> => SrvALPN(scn, o) \in o.alpn)
    /\ (hrrSeen => SHGroup(hrr) \in Offers[scn.id].groups \ Offers[scn.id].shares)
    /\ ~(SHVersion(sh) < 772 /\ 772 \in o.versions /\ HasCanary(sh))
